@@ -901,3 +901,107 @@ class Resolver:
                         for k, v in n.items()}
             return n
         return json.dumps(strip(full(a)), sort_keys=True) == json.dumps(strip(full(b)), sort_keys=True)
+
+
+class Origins:
+    """Where a value comes from, through bindings and projections.
+
+    of(e) -> (root expression, projection) with projection a tuple of steps 'Some' | 'Ok' | ('tup', i) | ('fld', name):
+    `let Some((&b, rest)) = xs.split_first() else { .. }`, `if let Some((b, rest)) = xs.split_first()`, and
+    `match xs.split_first() { Some((&b, rest)) => .. }` all give  b -> (xs.split_first(), ('Some', ('tup', 0))).
+    References, dereferences, casts and no-op blocks are transparent; an `if`/`match` whose non-diverging branches agree has
+    the origin of those branches; `o.unwrap_or(d)` is kept as a call (callers interpret it)."""
+
+    def __init__(self, root):
+        self.src = {}
+        self.assigned = set()
+        for n in walk(root):
+            k = n.get("k")
+            if k in ("let", "letexpr") and "init" in n:
+                self._bind(n["pat"], n["init"], ())
+            elif k == "match" and n.get("src") not in ("TryDesugar", "ForLoopDesugar"):
+                for a in n["arms"]:
+                    self._bind(a["pat"], n["scrut"], ())
+            elif k in ("assign", "assignop"):
+                l = simp(n["l"])
+                if isinstance(l, dict) and l.get("k") == "local":
+                    self.assigned.add(l.get("id"))
+
+    def _bind(self, p, src, proj):
+        k = p.get("k")
+        if k == "pbind":
+            if "id" in p:
+                self.src[p["id"]] = (src, proj)
+            if "sub" in p and isinstance(p["sub"], dict):
+                self._bind(p["sub"], src, proj)
+            return
+        if k == "ptuple":
+            s = simp(src)
+            if not proj and isinstance(s, dict) and s.get("k") == "tuple" and len(s["es"]) == len(p.get("pats", [])):
+                for q, x in zip(p["pats"], s["es"]):
+                    self._bind(q, x, ())
+            else:
+                for i, q in enumerate(p.get("pats", [])):
+                    self._bind(q, src, proj + (("tup", i),))
+            return
+        if k in ("pts", "pstruct"):
+            seg = last_seg(pat_path(p))
+            if k == "pts":
+                subs = list(enumerate(p.get("pats", [])))
+                for i, q in subs:
+                    step = seg if (seg in ("Some", "Ok", "Err") and len(subs) == 1) else ("fld", f"{seg}.{i}")
+                    self._bind(q, src, proj + (step,))
+            else:
+                for f in p.get("fields", []):
+                    step = seg if (seg in ("Some", "Ok", "Err") and f.get("name") == "0" and len(p["fields"]) == 1) else ("fld", f"{seg}.{f.get('name')}")
+                    self._bind(f["p"], src, proj + (step,))
+            return
+        if k in ("pref", "pderef") and isinstance(p.get("p"), dict):
+            self._bind(p["p"], src, proj)
+
+    def of(self, e, depth=8):
+        e = peel(e)
+        proj = ()
+        while depth > 0 and isinstance(e, dict):
+            depth -= 1
+            k = e.get("k")
+            if k == "local" and e.get("id") in self.src and e.get("id") not in self.assigned:
+                s, p = self.src[e["id"]]
+                e, proj = peel(s), p + proj
+                continue
+            if k == "match" and e.get("src") == "TryDesugar":
+                e, proj = peel(try_inner(e)), ("Ok",) + proj
+                continue
+            if k in ("if", "match", "block"):
+                vals = self._branch_values(e)
+                if vals is not None and len(vals) >= 1:
+                    os_ = [self.of(v, depth) for v in vals]
+                    if all(o[0] is os_[0][0] and o[1] == os_[0][1] for o in os_):
+                        e, proj = os_[0][0], os_[0][1] + proj
+                        continue
+            break
+        return e, proj
+
+    def _branch_values(self, e):
+        """Tail values of the non-diverging branches of an if / match / block expression."""
+        k = e.get("k")
+        if k == "block":
+            if "expr" not in e:
+                return None
+            return self._branch_values(simp(e["expr"])) if simp(e["expr"]).get("k") in ("if", "match", "block") else [e["expr"]]
+        out = []
+        brs = [e["t"]] + ([e["e"]] if "e" in e else []) if k == "if" else [a["body"] for a in e["arms"]]
+        if k == "if" and "e" not in e:
+            return None
+        for b in brs:
+            if diverges(b) or (simp(b).get("k") == "block" and any(simp(s).get("ty") == "!" for s in simp(b).get("stmts", [])) and "expr" not in simp(b)):
+                continue
+            bs = simp(b)
+            if bs.get("k") in ("if", "match") or (bs.get("k") == "block" and bs.get("stmts")):
+                sub = self._branch_values(bs)
+                if sub is None:
+                    return None
+                out.extend(sub)
+            else:
+                out.append(bs)
+        return out
